@@ -227,7 +227,7 @@ fn cuts_process_crash(tr: &Trace, cap: usize, capped: &mut u64) -> Vec<Cut> {
 /// possibly cut at a page boundary); in-place page writes inside the surviving length survive
 /// in any subset (at most one of them torn at the 2 KiB boundary); creates/unlinks survive as a
 /// prefix per directory.
-fn cuts_power_loss(tr: &Trace, cap: usize, capped: &mut u64, max_per_instant: usize) -> Vec<Cut> {
+fn cuts_power_loss(pre: &DirImage, tr: &Trace, cap: usize, capped: &mut u64, max_per_instant: usize) -> Vec<Cut> {
     let ev = &tr.events;
     let muts: Vec<usize> = (0..ev.len()).filter(|i| is_mutation(&ev[*i]) && !ev[*i].injected).collect();
     let syncs: Vec<usize> = (0..ev.len()).filter(|i| is_sync(&ev[*i]) && !ev[*i].injected).collect();
@@ -277,55 +277,88 @@ fn cuts_power_loss(tr: &Trace, cap: usize, capped: &mut u64, max_per_instant: us
         // choices per file: list of (kept ops, torn, partial append)
         type Choice = (Vec<usize>, Option<(usize, bool)>, Option<(usize, usize)>);
         let mut file_choices: Vec<Vec<Choice>> = vec![];
-        for (_g, ops) in per_file.iter() {
+        let grow = |len: u64, e: &vio::Event| -> u64 {
+            match &e.kind {
+                vio::Kind::SetLen(l) => *l,
+                vio::Kind::Append { data } => len + data.len() as u64,
+                vio::Kind::Write { off, data } => len.max(*off + data.len() as u64),
+                _ => len,
+            }
+        };
+        for (g, ops) in per_file.iter() {
             let mut ops = ops.clone();
             ops.sort_by_key(|i| ev[*i].seq);
-            let sizing: Vec<usize> = ops
-                .iter()
-                .cloned()
-                .filter(|i| matches!(ev[*i].kind, vio::Kind::SetLen(_) | vio::Kind::Append { .. } | vio::Kind::Create | vio::Kind::Unlink))
-                .collect();
-            let inplace: Vec<usize> = ops
-                .iter()
-                .cloned()
-                .filter(|i| matches!(ev[*i].kind, vio::Kind::Write { .. }))
-                .collect();
+            // length of the file after the durable operations
+            let mut base_len = pre.files.get(g).map(|f| f.len).unwrap_or(0);
+            for i in &base {
+                if &ev[*i].file == g {
+                    base_len = grow(base_len, &ev[*i]);
+                }
+            }
+            // classify: size-changing (set_len, append, create/unlink, write extending the file
+            // as issued) vs in-place page write
+            let mut issued_len = base_len;
+            let mut sizing: Vec<usize> = vec![];
+            let mut inplace: Vec<(usize, u64)> = vec![]; // (event, end offset)
+            for i in &ops {
+                let e = &ev[*i];
+                match &e.kind {
+                    vio::Kind::Write { off, data } => {
+                        let end = *off + data.len() as u64;
+                        if end > issued_len {
+                            sizing.push(*i);
+                        } else {
+                            inplace.push((*i, end));
+                        }
+                    }
+                    _ => sizing.push(*i),
+                }
+                issued_len = grow(issued_len, e);
+            }
             let mut choices: Vec<Choice> = vec![];
-            // every prefix of the size-changing ops …
             for p in 0..=sizing.len() {
                 let kept_sizing = &sizing[..p];
-                // … in-place writes issued before a *dropped* size change that they depend on are
-                // still candidates: content inside the kept length survives independently
-                let subs = subsets_capped(&inplace, cap, capped);
-                for sub in subs {
+                let mut kept_len = base_len;
+                for i in kept_sizing {
+                    kept_len = grow(kept_len, &ev[*i]);
+                }
+                // an in-place write can only survive inside the surviving length, and only if it
+                // was issued after the size changes that survive … or before a dropped one
+                let eligible: Vec<usize> = inplace.iter().filter(|(_, end)| *end <= kept_len).map(|(i, _)| *i).collect();
+                for sub in subsets_capped(&eligible, cap, capped) {
                     let mut kept: Vec<usize> = kept_sizing.to_vec();
                     kept.extend(sub.iter().cloned());
                     kept.sort_by_key(|i| ev[*i].seq);
                     choices.push((kept.clone(), None, None));
-                    // one torn write on top (only with the full subset and the empty one, to bound)
-                    if sub.len() == inplace.len() || sub.len() == 1 {
-                        if let Some(&w) = sub.last() {
-                            if let vio::Kind::Write { data, .. } = &ev[w].kind {
-                                if data.len() >= PAGE {
-                                    choices.push((kept.clone(), Some((w, true)), None));
-                                    choices.push((kept.clone(), Some((w, false)), None));
-                                }
+                    if !sub.is_empty() && (sub.len() == eligible.len() || sub.len() == 1) {
+                        let w = *sub.last().unwrap();
+                        if let vio::Kind::Write { data, .. } = &ev[w].kind {
+                            if data.len() >= PAGE {
+                                choices.push((kept.clone(), Some((w, true)), None));
+                                choices.push((kept.clone(), Some((w, false)), None));
                             }
                         }
                     }
                 }
-                // the last kept append cut at every page-aligned length
+                // the last kept extension cut at every page-aligned length
                 if p > 0 {
                     let last = sizing[p - 1];
-                    if let vio::Kind::Append { data } = &ev[last].kind {
-                        let mut k = PAGE;
-                        while k < data.len() {
-                            let mut kept: Vec<usize> = sizing[..p - 1].to_vec();
-                            kept.extend(inplace.iter().cloned());
-                            kept.sort_by_key(|i| ev[*i].seq);
-                            choices.push((kept, None, Some((last, k))));
-                            k += PAGE;
+                    let dlen = match &ev[last].kind {
+                        vio::Kind::Append { data } => data.len(),
+                        vio::Kind::Write { data, .. } => data.len(),
+                        _ => 0,
+                    };
+                    let mut k = PAGE;
+                    while k < dlen {
+                        let mut kept: Vec<usize> = sizing[..p - 1].to_vec();
+                        let mut klen = base_len;
+                        for i in &sizing[..p - 1] {
+                            klen = grow(klen, &ev[*i]);
                         }
+                        kept.extend(inplace.iter().filter(|(_, end)| *end <= klen).map(|(i, _)| *i));
+                        kept.sort_by_key(|i| ev[*i].seq);
+                        choices.push((kept, None, Some((last, k))));
+                        k += PAGE;
                     }
                 }
             }
@@ -393,6 +426,25 @@ fn cuts_power_loss(tr: &Trace, cap: usize, capped: &mut u64, max_per_instant: us
                     partial = ch.2;
                 }
             }
+            // a file whose creation did not survive cannot hold anything issued after it
+            let lost_creates: Vec<(String, u64)> = issued
+                .iter()
+                .filter(|i| matches!(ev[**i].kind, vio::Kind::Create) && !applied.contains(i))
+                .map(|i| (ev[*i].file.clone(), ev[*i].seq))
+                .collect();
+            if !lost_creates.is_empty() {
+                applied.retain(|i| !lost_creates.iter().any(|(f, s)| &ev[*i].file == f && ev[*i].seq > *s));
+                if let Some((ti, _)) = torn {
+                    if lost_creates.iter().any(|(f, _)| &ev[ti].file == f) {
+                        torn = None;
+                    }
+                }
+                if let Some((pi, _)) = partial {
+                    if lost_creates.iter().any(|(f, _)| &ev[pi].file == f) {
+                        partial = None;
+                    }
+                }
+            }
             applied.sort_by_key(|i| ev[*i].seq);
             let mut key = applied.clone();
             key.sort();
@@ -420,10 +472,17 @@ fn build_image(pre: &DirImage, tr: &Trace, cut: &Cut) -> DirImage {
         apply_event(&mut img, &tr.events[*i]);
     }
     if let Some((i, k)) = cut.partial_append {
-        if let vio::Kind::Append { data } = &tr.events[i].kind {
-            let f = img.files.entry(tr.events[i].file.clone()).or_default();
-            let len = f.len;
-            f.write_at(len, &data[..k]);
+        match &tr.events[i].kind {
+            vio::Kind::Append { data } => {
+                let f = img.files.entry(tr.events[i].file.clone()).or_default();
+                let len = f.len;
+                f.write_at(len, &data[..k]);
+            }
+            vio::Kind::Write { off, data } => {
+                let f = img.files.entry(tr.events[i].file.clone()).or_default();
+                f.write_at(*off, &data[..k]);
+            }
+            _ => {}
         }
     }
     if let Some((i, first_half)) = cut.torn {
@@ -573,7 +632,7 @@ fn check_image(ic: &ImageCheck, img: &DirImage, sides: &Sides, t: u64, what: &st
                 let cuts = if mode == "c03" {
                     cuts_process_crash(&rtrace, cap, capped)
                 } else {
-                    cuts_power_loss(&rtrace, cap, capped, 24)
+                    cuts_power_loss(img, &rtrace, cap, capped, 24)
                 };
                 let nested_ic = ImageCheck {
                     cfg: ic.cfg,
@@ -768,7 +827,7 @@ impl CrashX {
             let cuts = if mode == "c03" {
                 cuts_process_crash(&tr, cap, &mut capped)
             } else {
-                cuts_power_loss(&tr, cap, &mut capped, case["max_per_instant"].as_u64().unwrap_or(48) as usize)
+                cuts_power_loss(&pre, &tr, cap, &mut capped, case["max_per_instant"].as_u64().unwrap_or(48) as usize)
             };
             let sides = Sides {
                 old: &old,
@@ -796,6 +855,30 @@ impl CrashX {
         }
         if tr.mark_stamp("meta_done").is_some() {
             out.goals.push("op-with-meta-swap");
+        }
+        {
+            let has = |pred: &dyn Fn(&vio::Event) -> bool| tr.events.iter().any(|e| pred(e));
+            if has(&|e| e.file.starts_with("rollback") && matches!(e.kind, vio::Kind::Create)) {
+                out.goals.push("trace:segment-created");
+            }
+            if has(&|e| e.file.starts_with("rollback") && matches!(e.kind, vio::Kind::Unlink)) {
+                out.goals.push("trace:segment-unlinked");
+            }
+            if has(&|e| e.file.starts_with("rollback") && matches!(e.kind, vio::Kind::SetLen(_)) && e.thread.contains("rollback")) {
+                out.goals.push("trace:segment-truncated");
+            }
+            if has(&|e| e.file == "ln" && matches!(e.kind, vio::Kind::SetLen(_))) {
+                out.goals.push("trace:ln-grown");
+            }
+            if has(&|e| e.file == "bbn" && matches!(e.kind, vio::Kind::Write { .. })) {
+                out.goals.push("trace:bbn-written");
+            }
+            if has(&|e| e.file == "ht" && matches!(e.kind, vio::Kind::Write { .. })) {
+                out.goals.push("trace:ht-written");
+            }
+            if has(&|e| e.file == "wal" && matches!(&e.kind, vio::Kind::Write { data, .. } if data.len() > PAGE)) {
+                out.goals.push("trace:wal-multi-page");
+            }
         }
         out.sig = fnv_str(&format!("{}:{}:{}", tr.events.len(), out.transitions, out.goals.len()));
         if let Err(v) = r {
